@@ -2,7 +2,7 @@
     Pinned statements only; proofs in Proofs/{ChunkFacts,CutFacts,TruncFacts,ReaderFacts}.v. *)
 Require Import CF.Proofs.Tac CF.Model.Omics CF.Model.Pair CF.Model.Records CF.Model.Reader CF.Model.Sections CF.Model.Machine
   CF.Proofs.RecordsFacts CF.Proofs.SectionsFacts CF.Spec.Align CF.Proofs.MachineFacts CF.Proofs.BuildFacts CF.Proofs.ReaderFacts
-  CF.Proofs.TruncFacts CF.Proofs.ChunkFacts CF.Proofs.CutFacts.
+  CF.Proofs.TruncFacts CF.Proofs.ChunkFacts CF.Proofs.CutFacts CF.Proofs.FaultSched CF.Proofs.FaultFacts CF.Proofs.Examples CF.Proofs.FileFacts CF.Proofs.EolFacts CF.Model.Text.
 
 (** If any byte string from which a machine is built (any accepted file: any spelling, LF or CRLF) is cut
     at any byte offset k - inside a header field, inside a number, between fields, inside or after a line
@@ -45,7 +45,32 @@ Theorem C08_interrupted : forall l1 l2, no_fail (l1 ++ l2) ->
 Proof. exact raw_reads_interrupted. Qed.
 Print Assumptions C08_interrupted.
 
+(** "... the failure surfaces as an I/O error from the call in progress": the reads of a schedule that delivers [flat l1]
+    (any chunking, any number of retried interrupts) and then fails hard are the reads of the whole byte string for the lines
+    completed so far, then the I/O error of the read in progress - no shortened line, nothing skipped ... *)
+Theorem C08_fault_reads : forall l1 l2 b2, no_fail l1 ->
+  raw_reads {| pending := []; future := l1 ++ Fail :: l2 |} =
+  firstn (count_lf (flat l1)) (raw_reads (src_of_bytes (flat l1 ++ b2))) ++ RErr IoFail 0 :: raw_reads {| pending := []; future := l2 |}.
+Proof. exact raw_reads_fault_schedule. Qed.
+Print Assumptions C08_fault_reads.
+
+(** ... and if the whole byte string [flat l1 ++ b2] would have given a machine, the build over the failing schedule returns
+    exactly that I/O error, whatever the reader would deliver after the failure. *)
+Theorem C08_hard_fault_is_io : forall l1 l2 b2 m, no_fail l1 -> build (src_of_bytes (flat l1 ++ b2)) = Val (Ok m) ->
+  build {| pending := []; future := l1 ++ Fail :: l2 |} = Val (Err (BSections (EIo IoFail))).
+Proof. exact build_fault_is_io. Qed.
+Print Assumptions C08_hard_fault_is_io.
+
 Example C08_nonvacuous :
   raw_reads {| pending := []; future := [Chunk [52; 10; 53]; Interrupted; Chunk [54; 10]; Fail; Chunk [55]] |}
   = [ROk 2 [52]; ROk 3 [53; 54]; RErr IoFail 0; ROk 1 [55]].
 Proof. vm_compute. reflexivity. Qed.
+
+(** the premises of [C08_hard_fault_is_io] are met by a real file: the bytes of [ex_file], the first 40 delivered in two
+    chunks with an interrupt between them, then a hard failure *)
+Example C08_fault_nonvacuous :
+  let b := join_lines [LF] (file_lines ex_file) in
+  let l1 := [Chunk (firstn 17 b); Interrupted; Chunk (firstn 23 (skipn 17 b))] in
+  (exists m, build (src_of_bytes (flat l1 ++ skipn 40 b)) = Val (Ok m)) /\ no_fail l1 /\ (40 < length b)%nat /\
+  build {| pending := []; future := l1 ++ Fail :: [Chunk (skipn 40 b)] |} = Val (Err (BSections (EIo IoFail))).
+Proof. vm_compute. split; [eexists; reflexivity|]. split; [exact I|]. split; [lia|reflexivity]. Qed.
